@@ -54,6 +54,12 @@ fn main() {
         }
         ("C01", None) => checks::c01::run(&ctx),
         ("C01", Some(r)) => checks::c01::replay(&ctx, &r["case"]),
+        ("C13", None) => checks::c13::run(&ctx),
+        ("C13", Some(r)) => checks::c13::replay(&ctx, &r["case"]),
+        ("C13DBG", _) => {
+            checks::c13::debug(&args);
+            std::process::exit(0);
+        }
         ("C03", None) => checks::c03::run(&ctx),
         ("C03", Some(r)) => checks::c03::replay(&ctx, &r["case"]),
         ("C03DBG", _) => {
